@@ -23,7 +23,7 @@ v_ifchange_soft() { # like v_ifchange but remembers the status instead of exitin
   [ "$_rc" = 0 ] || RV_SOFT=$_rc
 }
 v_use() { # rel rootrel
-  if [ -e "$1" ]; then _h=$(sha1sum < "$1"); _h=${_h%% *}; else _h=missing; fi
+  if [ -d "$1" ]; then _h=dir; elif [ -e "$1" ]; then _h=$(sha1sum < "$1"); _h=${_h%% *}; else _h=missing; fi
   RV_ACC="${RV_ACC}D $2 $_h
 "
 }
@@ -76,4 +76,6 @@ v_out() { # stdout | file
   esac
 }
 v_stamp() { printf %s "$RV_ACC" | redo-stamp; }
+v_stampsrc() { case "$(cat "$1" 2>/dev/null)" in *" 1") ;; *) v_stamp ;; esac; }
+v_stampif() { if [ -e "$RV_CTL/stampflag.$1" ]; then v_stamp; fi; }
 v_end() { v_exit "${RV_SOFT:-0}"; }
